@@ -173,6 +173,9 @@ func VerifC08Rules(r, n int) {
 		anyBareColon = anyBareColon || ru.bareColon
 	}
 	faulty := exists && regular && c08Oracle(rules, true)
-	verifrt.Observe("got", got, "want", want, "faulty", faulty, "exists", exists, "regular", regular, "text", texts[0])
-	verifrt.Finding("C08-KF1", anyBareColon && got == faulty)
+	if anyBareColon && got == faulty {
+		verifrt.Finding("C08-KF1", true)
+		return
+	}
+	verifrt.Assert(false, "permission decision differs from 'resolved regular file, last matching rule decides, no match denies'")
 }
